@@ -166,7 +166,7 @@ struct Tier {
 
 fn tier(name: &str) -> Option<Tier> {
     match name {
-        "quick" => Some(Tier { name: "quick", selftest: 256, c05_keys: 8, c05_worlds: 24_000, c16_sample: 24, c16_worlds: 30_000 }),
+        "quick" => Some(Tier { name: "quick", selftest: 256, c05_keys: 12, c05_worlds: 40_000, c16_sample: 48, c16_worlds: 50_000 }),
         "thorough" => Some(Tier { name: "thorough", selftest: 4096, c05_keys: 64, c05_worlds: 600_000, c16_sample: usize::MAX, c16_worlds: 600_000 }),
         _ => None,
     }
@@ -272,11 +272,14 @@ pub fn check(prop: &str, tier_name: &str) -> i32 {
     if prop == "C05" {
         for pi in 0..corpus.len() {
             items.push(Item::C05Keys { base, prog: pi, k_from: 0, k_to: t.c05_keys });
+            items.push(Item::Delivery { prop: "C05".into(), prog: pi });
         }
         items.extend(batches(prop, base, t.selftest, t.selftest + t.c05_worlds, 100, false));
     } else {
         let mut r = Rng::new(mix(base, 0xE));
         for (pi, p) in corpus.iter().enumerate() {
+            items.push(Item::Delivery { prop: "C16".into(), prog: pi });
+            enumerated += gen::DELIVERY_VARIANTS as u64;
             for kind in faults::SINGLE_KINDS {
                 let sp = faults::space(kind, &p.source);
                 if sp == 0 {
@@ -855,6 +858,7 @@ fn world_of_tag(prop: &str, base: u64, tag: &str, corpus: &[Program]) -> Option<
         ("C05", "c05k") => Some(gen::c05_key_world(base, p.get(1)?.parse().ok()?, p.get(2)?.parse().ok()?, corpus)),
         ("C16", "c16") => Some(gen::c16_world(mix(base ^ 0xC16, p.get(1)?.parse().ok()?), corpus)),
         ("C16", "c16e") => Some(gen::c16_enum_world(corpus, p.get(1)?.parse().ok()?, p.get(2)?, p.get(3)?.parse().ok()?)),
+        (_, "dlv") => Some(gen::delivery_world(prop, corpus, p.get(1)?.parse().ok()?, p.get(2)?.parse().ok()?)),
         _ => None,
     }
 }
